@@ -6,6 +6,8 @@ import (
 	"errors"
 	"fmt"
 	"strings"
+
+	pongo2 "github.com/flosch/pongo2/v6"
 )
 
 // C14 - Execute variants agree; ExecuteWriter is all-or-nothing. DESIGN.md section 4 (C14).
@@ -41,19 +43,33 @@ type c14Case struct {
 	Plan  []FaultSpec `json:"plan"`
 }
 
+// compileMain creates the program's main template through one of the set's four creators.
+func compileMain(set *pongo2.TemplateSet, sp *ProgSpec, via int) (*pongo2.Template, error) {
+	switch via {
+	case 1:
+		return set.FromCache(sp.Main)
+	case 2:
+		return set.FromString(sp.Files[sp.Main])
+	case 3:
+		return set.FromBytes([]byte(sp.Files[sp.Main]))
+	}
+	return set.FromFile(sp.Main)
+}
+
 func (c14Checker) Run(tp *Tapes, opt RunOpt) *Outcome {
 	out := &Outcome{Faults: map[string]int{}}
 	g := tp.Gen
 	sp := GenProgramOpt(g, 6+g.DrawD(20, 50), true)
 	cd := GenCtxDesc(g)
 	loaderKind := []string{"fs", "virt", "http"}[g.Draw(3)]
+	via := g.Draw(4) // how the template is created: FromFile, FromCache, FromString, FromBytes
 	disk := progDisk(sp)
 	ph := newHasher()
 	for _, k := range sortedKeys(sp.Files) {
 		ph.str(k)
 		ph.str(sp.Files[k])
 	}
-	ph.str(fmt.Sprintf("%+v%v%v%s", cd, sp.TrimBlocks, sp.LStripBlocks, loaderKind))
+	ph.str(fmt.Sprintf("%+v%v%v%s%d", cd, sp.TrimBlocks, sp.LStripBlocks, loaderKind, via))
 	out.ProgHash = uint64(ph)
 	th := newHasher()
 	th.u64(out.ProgHash)
@@ -69,7 +85,7 @@ func (c14Checker) Run(tp *Tapes, opt RunOpt) *Outcome {
 		old := SetCurWorld(w)
 		defer SetCurWorld(old)
 		set := w.NewProgSet(sp, "P", loaderKind)
-		tpl, err := set.FromFile(sp.Main)
+		tpl, err := compileMain(set, sp, via)
 		if err != nil {
 			return nil, err.Error()
 		}
@@ -350,7 +366,7 @@ func (c14Checker) Run(tp *Tapes, opt RunOpt) *Outcome {
 		old := SetCurWorld(w)
 		defer SetCurWorld(old)
 		set := w.NewProgSet(sp, "P", loaderKind)
-		tpl, cerr := set.FromFile(sp.Main)
+		tpl, cerr := compileMain(set, sp, via)
 		if cerr != nil {
 			return "", cerr, ""
 		}
@@ -412,7 +428,7 @@ func (c14Checker) Run(tp *Tapes, opt RunOpt) *Outcome {
 		w := NewWorld(disk)
 		old := SetCurWorld(w)
 		set := w.NewProgSet(sp, "P", loaderKind)
-		tpl, terr := set.FromFile(sp.Main)
+		tpl, terr := compileMain(set, sp, via)
 		if terr == nil {
 			sp.ApplyTplOptions(tpl)
 			opn := 0
